@@ -165,3 +165,7 @@ def run(ctx):
     mesh_stage(ctx, 2)
     import c09_maps
     c09_maps.run(ctx)
+    # the library's own editors applied to a mesh whose lazy index already exists
+    import solids
+    solids.judge_stage(ctx, "editors", ["c09-editors"], {"panic", "vertices", "find", "neighbors"},
+                       judge="mesh/EditorJudge", keyfn=lambda rec, clause: "model3d.Mesh:editor:%s:%s" % (rec["site"], clause))
